@@ -39,10 +39,8 @@ Fixpoint run (st : Store) (ops : list kop) : bool :=
       | Raise c => res_bool_eqb (Raise c) impl && snap_eqb (snap st) after && run st rest
       end
   | KDel label force answer impl after :: rest =>
-      match key_delete st label force answer with
-      | OK (st', r) => res_bool_eqb (OK r) impl && snap_eqb (snap st') after && run st' rest
-      | Raise c => res_bool_eqb (Raise c) impl && snap_eqb (snap st) after && run st rest
-      end
+      let '(st', r) := key_delete st label force answer in
+      res_bool_eqb r impl && snap_eqb (snap st') after && run st' rest
   end.
 
 Definition ident_list_eqb (a b : list ident) : bool :=
